@@ -22,6 +22,10 @@ fn check(id: &str, tier: Tier) -> i32 {
             let n = ctx.runs(200_000, 20_000_000);
             run_check(&props::c13::C13, &ctx, &[("histories", n)], |_, _| Vec::new()).exit
         }
+        "C08" => {
+            let n = ctx.runs(20_000, 2_000_000);
+            run_check(&props::c08::C08, &ctx, &[("histories", n)], |_, _| Vec::new()).exit
+        }
         "C12" => {
             let n = ctx.runs(3_000, 200_000);
             let np = match tier { Tier::Quick => 300usize, Tier::Thorough => 3000 };
@@ -109,6 +113,7 @@ fn replay(path: &Path) -> i32 {
         "C11" => replay_main(&props::c11::C11, path),
         "C14" => replay_main(&props::c14::C14, path),
         "C12" => replay_main(&props::c12::C12, path),
+        "C08" => replay_main(&props::c08::C08, path),
         _ => {
             eprintln!("HARNESS-ERROR: replay file names unknown property {:?}", prop);
             2
@@ -180,6 +185,10 @@ fn main() {
             let v = match id.as_str() {
                 "C02" => serde_json::to_value(props::c02::C02.generate(&mut r, idx as usize, Tier::Quick)).ok(),
                 "C07" => serde_json::to_value(props::c07::C07.generate(&mut r, idx as usize, Tier::Quick)).ok(),
+                "C08" => serde_json::to_value(props::c08::C08.generate(&mut r, idx as usize, Tier::Quick)).ok(),
+                "C11" => serde_json::to_value(props::c11::C11.generate(&mut r, idx as usize, Tier::Quick)).ok(),
+                "C12" => serde_json::to_value(props::c12::C12.generate(&mut r, idx as usize, Tier::Quick)).ok(),
+                "C14" => serde_json::to_value(props::c14::C14.generate(&mut r, idx as usize, Tier::Quick)).ok(),
                 _ => None,
             };
             let rf = framework::ReplayFile { property: id.clone(), clause: "dump".into(), observed: String::new(), seed: ctx.seed, run: idx, scenario: v.unwrap_or_default(), detail: Default::default(), minimised_steps: 0 };
